@@ -454,7 +454,14 @@ async fn scenario(w: &Arc<World>, p: &Plan) {
         }
         install_epmd_only(w);
         let io_timeout = if p.fault == "peer_stalls" { 10 } else { 600 };
-        let cfg = ConnectionConfig::new(SUT_NAME, PEER_NAME, COOKIE).with_flags(DistributionFlags::new(flags)).with_timeout(Duration::from_secs(io_timeout));
+        // "no timeout" configurations: the largest durations there are (fault-free runs: nothing stalls for ever there)
+        let io = if p.fault.is_empty() && (p.salt >> 40) % 6 == 0 {
+            w.stat("probe.c07.unbounded_io_timeout");
+            if (p.salt >> 44) % 2 == 0 { Duration::MAX } else { Duration::from_secs(u64::MAX) }
+        } else {
+            Duration::from_secs(io_timeout)
+        };
+        let cfg = ConnectionConfig::new(SUT_NAME, PEER_NAME, COOKIE).with_flags(DistributionFlags::new(flags)).with_timeout(io);
         let mut conn = Connection::new(cfg);
         // operations before the handshake completes fail without writing
         let pre = conn.link(&to_pid(&local_pid_for(0)).unwrap(), &to_pid(&peer_pid_for(0, 0, 0)).unwrap()).await;
